@@ -18,6 +18,8 @@ import BB.Proofs.DictEq
 import BB.Model.Describe
 import BB.Model.Tools
 import BB.Proofs.Heap
+import BB.Proofs.G8Examples
+import BB.Proofs.G8Value09
 
 namespace BB.C09
 open BB BB.BP
@@ -191,5 +193,279 @@ def exHist : List Call :=
 open BB.Heap in
 example : (exHist.foldl State.call {}).fault = false ∧
     (exHist.foldl State.call {}).vars = [("b", 8), ("e", 11), ("e2", 34), ("s", 39)] := by decide
+
+/-! ### the reference level, for the library's own programs: no call faults (G8)
+
+`heap_separation` / `heap_independent` hold for every program over the checked primitives — but a
+program that breaks the ownership discipline *faults*, and then they say nothing about what the
+Python method does.  The theorems below close that gap for the programs that model broadbean's
+methods: `BB.Heap.LibCall` has one constructor per method program of BB.Model.Heap (constructors,
+`copy`, `+`, the blueprint / element / sequence mutators, `addBluePrint` / `addArray` / `addFlags`,
+`addElement` / `addSubSequence`, the three sweep tools, and the read-only calls), made on
+user-held variables.  `BB.Heap.Shaped` is the shape invariant: `Inv`, every cell holds what its
+kind allows (`Typed`: kinds of the referenced cells, fixed attribute keys; with `Closed`:
+ownership, frozen cells referencing frozen cells), every variable points to a BluePrint / Element /
+Sequence whose stored subsequences hold elements only (so everything fits into `depth`), unique
+names, no fault so far.  `LibCall.ok` is the explicit, decidable guard: the named variables are
+live objects of the right class, and the keys exist on which the Python raises (`KeyError` for a
+channel / position, `ValueError` for a nested subsequence, an unknown marker list).
+Proofs: BB/Proofs/G8*.lean (bottom-up: `cellAt`/`refAt`/`setKey`, `shallowCopy`/`deepCopy`,
+blueprint, element, sequence programs, tools). -/
+
+open BB.Heap in
+/-- the shape invariant holds for the empty state -/
+theorem heap_shaped_init : Shaped {} := shaped_init
+
+open BB.Heap in
+/-- **no library program faults on a shaped state**: whichever call of the vocabulary — storing
+    (`addBluePrint`, `addArray`, `addElement`, `addSubSequence`), deriving (`copy`, `+`, the sweep
+    tools, the constructors), mutating, or read-only — if its guard holds, the call does not fault
+    and the state is shaped again -/
+theorem heap_lib_call_nofault (st : State) (c : LibCall) (hs : Shaped st) (hok : c.ok st = true) :
+    Shaped (c.run st) ∧ (c.run st).fault = false :=
+  ⟨lib_step st c hs hok, (lib_step st c hs hok).nofault⟩
+
+open BB.Heap in
+example : Shaped (runLib {} exLibC) ∧ (LibCall.sqAddSub "s2" "3" "sub").ok (runLib {} exLibC) = true :=
+  ⟨(lib_history exLibC exLibC_guarded).1, by decide +kernel⟩
+
+open BB.Heap in
+/-- the guard of `addSubSequence` is not idle: a sequence that itself holds a subsequence is
+    refused (the Python raises `ValueError`) -/
+example : (LibCall.sqAddSub "sub" "2" "s").ok (runLib {} exLibC) = false := by decide +kernel
+
+open BB.Heap in
+/-- the guards are needed — the model programs DO fault outside them.  (1) a marker-list
+    assignment under a key that is not one of the blueprint's lists, followed by `+`: the sum would
+    hold a reference to a list of its left operand.  (2) editing "the element" at a position that
+    holds a subsequence. -/
+theorem heap_guards_needed :
+    ([ Call.derive "a" bpNew, .derive "b" bpNew, .act "b" (fun b => bpSetMarker 1 b "foo"),
+       .derive "c" (bpAdd 17 8) ].foldl State.call {}).fault = true ∧
+    (runLib {} [ .bpNew "b", .elNew "e", .elAddBP "e" "1" "b", .sqNew "s", .sqNew "sub",
+       .sqAddElement 1 "sub" "1" "e", .sqAddSub "s" "1" "sub", .sqElMutate 2 "s" "1" "1" ]).fault = true ∧
+    guarded {} [ .bpNew "b", .elNew "e", .elAddBP "e" "1" "b", .sqNew "s", .sqNew "sub",
+       .sqAddElement 1 "sub" "1" "e", .sqAddSub "s" "1" "sub", .sqElMutate 2 "s" "1" "1" ] = false := by
+  decide +kernel
+
+open BB.Heap in
+/-- **no history of guarded library calls ever faults** -/
+theorem heap_lib_history_nofault (cs : List LibCall) (hg : guarded {} cs = true) :
+    Shaped (runLib {} cs) ∧ (runLib {} cs).fault = false := lib_history cs hg
+
+open BB.Heap in
+example : guarded {} exLibA = true ∧ guarded {} exLibD = true := ⟨exLibA_guarded, exLibD_guarded⟩
+
+open BB.Heap in
+/-- **independence over library histories, without a no-fault assumption**: after any guarded
+    history of library calls, any further guarded library calls that do not target the variable
+    `ty` — any public mutator of another object (the source of a copy, the copy of a source, a
+    container the object was stored into), deriving calls bound to other names, read-only calls on
+    anything — leave everything observable of the object `ty` names unchanged; and no call of
+    either history faults -/
+theorem heap_lib_independent (hist later : List LibCall) (hg : guarded {} (hist ++ later) = true)
+    (ty : String) (y : Addr) (hy : (ty, y) ∈ (runLib {} hist).vars)
+    (hother : ∀ c ∈ later, c.target ≠ some ty) (n : Nat) :
+    (runLib {} (hist ++ later)).fault = false ∧
+    unfold n (runLib {} (hist ++ later)).heap y = unfold n (runLib {} hist).heap y :=
+  lib_independent hist later hg ty y hy hother n
+
+open BB.Heap in
+/-- an instance: after `e2 = e.copy()` and `s.addElement(1, e)`, mutating the source `e` (a new
+    channel, its stored blueprint) and the copy `e2` leaves the sequence `s` as it was -/
+example : guarded {} (exLibB ++ [.elCopy "e" "e2", .elAddArray 20 "e" "2" ["wfm"], .elMutateBP 21 "e" "1",
+      .elMutateBP 22 "e2" "1"]) = true ∧
+    (∀ c ∈ [LibCall.elCopy "e" "e2", .elAddArray 20 "e" "2" ["wfm"], .elMutateBP 21 "e" "1", .elMutateBP 22 "e2" "1"],
+      c.target ≠ some "s") ∧
+    ("s", 26) ∈ (runLib {} exLibB).vars := by decide +kernel
+
+open BB.Heap in
+/-- **`BluePrint.copy()` initially equals its source**: the call does not fault and the returned
+    object unfolds, to every depth, to the same tree as the source -/
+theorem heap_bpCopy_same (st : State) (hs : Shaped st) (b dst : String) (hok : (LibCall.bpCopy b dst).ok st = true) :
+    ∃ x y : Addr, st.vars.lookup b = some x ∧ ((LibCall.bpCopy b dst).run st).vars.lookup dst = some y ∧
+      ((LibCall.bpCopy b dst).run st).fault = false ∧
+      ∀ n, unfold n ((LibCall.bpCopy b dst).run st).heap y = unfold n st.heap x := lib_bpCopy_same st hs b dst hok
+
+open BB.Heap in
+example : (LibCall.bpCopy "b" "b9").ok (runLib {} exLibA) = true := by decide +kernel
+
+open BB.Heap in
+/-- **`Element.copy()` initially equals its source** (deep copies of the channel store and of the
+    cache; same tree to every depth) -/
+theorem heap_elCopy_same (st : State) (hs : Shaped st) (e dst : String) (hok : (LibCall.elCopy e dst).ok st = true) :
+    ∃ x y : Addr, st.vars.lookup e = some x ∧ ((LibCall.elCopy e dst).run st).vars.lookup dst = some y ∧
+      ((LibCall.elCopy e dst).run st).fault = false ∧
+      ∀ n, unfold n ((LibCall.elCopy e dst).run st).heap y = unfold n st.heap x := lib_elCopy_same st hs e dst hok
+
+open BB.Heap in
+example : (LibCall.elCopy "e" "e9").ok (runLib {} exLibA) = true := by decide +kernel
+
+open BB.Heap in
+/-- **`Sequence.copy()` initially equals its source** in its element store, sequencing and
+    settings (the name is not copied) -/
+theorem heap_sqCopy_same (st : State) (hs : Shaped st) (s dst : String) (hok : (LibCall.sqCopy s dst).ok st = true) :
+    ∃ x y : Addr, st.vars.lookup s = some x ∧ ((LibCall.sqCopy s dst).run st).vars.lookup dst = some y ∧
+      ((LibCall.sqCopy s dst).run st).fault = false ∧
+      ∀ key ∈ ["_data", "_sequencing", "_awgspecs"], ∃ a a' : Addr, follow st.heap x key = some a ∧
+        follow ((LibCall.sqCopy s dst).run st).heap y key = some a' ∧
+        ∀ n, unfold n ((LibCall.sqCopy s dst).run st).heap a' = unfold n st.heap a := lib_sqCopy_same st hs s dst hok
+
+open BB.Heap in
+example : (LibCall.sqCopy "s" "s9").ok (runLib {} exLibC) = true := by decide +kernel
+
+open BB.Heap in
+/-- **`deepCopy` is correct**: on a closed, well-typed heap the deep copy of a graph at most
+    `depth` cells high does not fault, allocates only cells of the running owner, rewrites nothing,
+    returns a fresh cell that unfolds to every depth to the same tree as the source, and leaves the
+    unfolding of everything that existed as it was -/
+theorem heap_deepCopy_correct (r : Owner) (h : Heap) (a : Addr) (hg : Good h) (hf : Fits depth h a) :
+    ∃ (a' : Addr) (h' : Heap), exec r (deepCopyAddr a) h = some (a', h') ∧ h.length ≤ a' ∧
+      (∀ (x : Addr) (c : Cell), h.length ≤ x → h'[x]? = some c → c.owner = r) ∧
+      (∀ (x : Addr) (c : Cell), h[x]? = some c → h'[x]? = some c) ∧
+      (∀ n, unfold n h' a' = unfold n h a) ∧
+      (∀ (n : Nat) (x : Addr) (c : Cell), h[x]? = some c → unfold n h' x = unfold n h x) :=
+  deepCopy_correct r h a hg hf
+
+open BB.Heap in
+example : ∃ a, Good (runLib {} exLibB).heap ∧ Fits depth (runLib {} exLibB).heap a := by
+  have hs := (lib_history exLibB exLibB_guarded).1
+  obtain ⟨x, c, _, hc, hk⟩ := isVar_spec (st := runLib {} exLibB) (name := "e") (k := .elObj) (by decide +kernel)
+  exact ⟨x, hs.good, fits_low hs.good ⟨c, hc, hk⟩ rfl⟩
+
+open BB.Heap in
+/-- `deepCopy` of a graph of any height `n` (the general statement): no fault, nothing rewritten,
+    and a cell-by-cell copy (`CopyRel`) hangs from the returned fresh cell -/
+theorem heap_deepCopy_runs (base : Nat) (r : Owner) (n : Nat) (h : Heap) (a : Addr) (hg : Good h) (hf : Fits n h a) :
+    ∃ (a' : Addr) (h' : Heap), execB base r (deepCopy n a) h = some (.ref a', h') ∧ h.length ≤ a' ∧
+      Evo r pNone h h' ∧ CopyRel h' n a a' := by
+  obtain ⟨s, h', hx, a', hs, h1, h2, h3⟩ := deepCopy_spec (base := base) (r := r) n h a hg hf
+  subst hs
+  exact ⟨a', h', hx, h1, h2, h3⟩
+
+open BB.Heap in
+example : ∃ a, Fits 5 (runLib {} exLibB).heap a := by
+  have hs := (lib_history exLibB exLibB_guarded).1
+  obtain ⟨x, c, _, hc, hk⟩ := isVar_spec (st := runLib {} exLibB) (name := "e") (k := .elObj) (by decide +kernel)
+  exact ⟨x, fits_of_rank hs.typed 5 x c hc (by rw [hk]; rfl) (by rw [hk]; decide)⟩
+
+/-! ### `addSubSequence` stores a copy; other positions untouched (G8, value level) -/
+
+/-- **`addSubSequence` stores `storedSub`** (the argument's elements, sequencing and settings,
+    without the name) under the position with the default sequencing entry, and leaves every other
+    position of the store and of the sequencing table, the settings and the name untouched —
+    whenever the argument holds elements only and has the receiver's sample rate -/
+theorem addSubSequence_stores (s : Sequence) (pos : Int) (sub : Sequence) (d : Dict Int Element)
+    (hd : Sequence.elementsOnly sub.data = some d) (hsr : sub.getSR = s.getSR) :
+    (s.addSubSequence pos sub).err = none ∧
+    Dict.get? (s.addSubSequence pos sub).st.data pos = some (.sub (Sequence.storedSub sub d)) ∧
+    Dict.get? (s.addSubSequence pos sub).st.sequencing pos = some Sequence.defaultSeqSub ∧
+    (∀ p, p ≠ pos → Dict.get? (s.addSubSequence pos sub).st.data p = Dict.get? s.data p) ∧
+    (∀ p, p ≠ pos → Dict.get? (s.addSubSequence pos sub).st.sequencing p = Dict.get? s.sequencing p) ∧
+    (s.addSubSequence pos sub).st.awgspecs = s.awgspecs ∧
+    (s.addSubSequence pos sub).st.name = s.name := C09V.addSubSequence_stores s pos sub d hd hsr
+
+example : Sequence.elementsOnly C09V.exSub.data = some [(1, C09V.exEl)] ∧ C09V.exSub.getSR = C09V.exHost.getSR := by
+  decide
+
+/-- `addSubSequence` is accepted exactly in that case; otherwise (a nested subsequence, another
+    sample rate) the receiver is exactly what it was and a `ValueError` is raised -/
+theorem addSubSequence_refusals (s : Sequence) (pos : Int) (sub : Sequence) :
+    ((s.addSubSequence pos sub).err = none ↔
+      (∃ d, Sequence.elementsOnly sub.data = some d) ∧ sub.getSR = s.getSR) ∧
+    (Sequence.elementsOnly sub.data = none →
+      (s.addSubSequence pos sub).st = s ∧ (s.addSubSequence pos sub).err = some .value) ∧
+    (sub.getSR ≠ s.getSR → (s.addSubSequence pos sub).st = s ∧ (s.addSubSequence pos sub).err = some .value) :=
+  ⟨C09V.addSubSequence_ok_iff s pos sub, C09V.addSubSequence_nested_refused s pos sub,
+    C09V.addSubSequence_SR_refused s pos sub⟩
+
+/-- the stored copy describes and answers the queries like its source -/
+theorem storedSub_same_output (sub : Sequence) (d : Dict Int Element) (hd : Sequence.elementsOnly sub.data = some d) :
+    Sequence.subToDesc (Sequence.storedSub sub d) = sub.toDesc ∧
+    SubSeq.channels (Sequence.storedSub sub d) = sub.channels ∧
+    SubSeq.points (Sequence.storedSub sub d) = sub.points ∧
+    SubSeq.duration (Sequence.storedSub sub d) = sub.duration :=
+  ⟨C09V.storedSub_toDesc sub d hd, C09V.storedSub_queries sub d hd⟩
+
+/-! ### `a + b`: the entries are copies, `b`'s at shifted keys (G8, value level) -/
+
+/-- **`a.add b = .ok c`: the entries of `c` are `copyEntry` of `a`'s entries at their own keys and
+    of `b`'s at keys shifted by `len(a)`** — key by key, as two halves, and as a list; `c` has
+    `len(a) + len(b)` positions -/
+theorem add_entries (a b c : Sequence) (h : a.add b = .ok c) :
+    (∀ k : Int, Dict.get? c.data k =
+      if k ∈ Dict.keys a.data then (Dict.get? a.data k).map Sequence.copyEntry
+      else (Dict.get? b.data (k - (a.data.length : Int))).map Sequence.copyEntry) ∧
+    (∀ k en, Dict.get? a.data k = some en → Dict.get? c.data k = some (Sequence.copyEntry en)) ∧
+    (∀ k en, Dict.get? b.data k = some en →
+      Dict.get? c.data (k + (a.data.length : Int)) = some (Sequence.copyEntry en)) ∧
+    c.data.length = a.data.length + b.data.length ∧
+    c.data = a.data.map (fun p => (p.1, Sequence.copyEntry p.2)) ++
+      b.data.map (fun p => (p.1 + (a.data.length : Int), Sequence.copyEntry p.2)) :=
+  ⟨C09V.add_entries a b c h, C09V.add_entries_split a b c h⟩
+
+example : (C09V.exHost.add C09V.exHost).toOption.isSome = true := by decide +kernel
+
+/-- the exact guard of `+`, the settings and name of the result, and what a copied entry is -/
+theorem add_guard_and_settings (a b c : Sequence) :
+    (a.add b = .ok c ↔ a.checkConsistency = .ok true ∧ b.checkConsistency = .ok true ∧
+      Dict.eqBy (· == ·) a.awgspecs b.awgspecs = true ∧ c = Sequence.addCore a b) ∧
+    (a.add b = .ok c → c.awgspecs = b.awgspecs ∧ Dict.eqBy (· == ·) a.awgspecs c.awgspecs = true ∧ c.name = "") ∧
+    (∀ e, Sequence.copyEntry (.el e) = .el e) ∧
+    (∀ sub, Sequence.copyEntry (.sub sub) = .sub { sub with name := "" }) :=
+  ⟨C09V.add_guard a b c, C09V.add_settings a b c, fun _ => rfl, fun _ => rfl⟩
+
+/-- the sequencing table of `a + b`, key by key: `b`'s entry for `k - len(a)` with goto / jump
+    target retargeted if `b` has one there, else `a`'s own entry -/
+theorem add_sequencing (a b c : Sequence) (h : a.add b = .ok c) (hwf : Dict.WF b.sequencing) (k : Int) :
+    Dict.get? c.sequencing k =
+      ((Dict.get? b.sequencing (k - (a.data.length : Int))).map (Sequence.retargetSeq (a.data.length : Int))).or
+        (Dict.get? a.sequencing k) := C09V.add_sequencing_get a b c h hwf k
+
+example : Dict.WF C09V.exHost.sequencing := by unfold Dict.WF; decide
+
+/-! ### the sweep tools store edited copies (G8, value level) -/
+
+open BB.Tools in
+/-- **`linLoop`: position `ind+j+1` holds `applyChange` of a copy of the base element for value
+    `j`** (accepted, validated, cache filled) with the default sequencing entry; every position
+    outside `ind+1 … ind+len`, the settings and the name are untouched -/
+theorem linLoop_positions (base : Element) (ch : Chan) (name : String) (arg : Val) (vals : List Rat) (ind : Nat)
+    (s r : Sequence) (h : linLoop base ch name arg vals ind s = .ok r) :
+    (∀ j (hj : j < vals.length), ∃ m,
+      (applyChange base.copy ch name arg (.num vals[j])).err = none ∧
+      (applyChange base.copy ch name arg (.num vals[j])).st.validate = .ok m ∧
+      Dict.get? r.data ((ind + j + 1 : Nat) : Int) =
+        some (.el { (applyChange base.copy ch name arg (.num vals[j])).st with cache := some m }) ∧
+      Dict.get? r.sequencing ((ind + j + 1 : Nat) : Int) = some Sequence.defaultSeqEl) ∧
+    (∀ p : Int, (p ≤ (ind : Int) ∨ ((ind + vals.length : Nat) : Int) < p) →
+      Dict.get? r.data p = Dict.get? s.data p ∧ Dict.get? r.sequencing p = Dict.get? s.sequencing p) ∧
+    r.awgspecs = s.awgspecs ∧ r.name = s.name := C09V.linLoop_positions base ch name arg vals ind s r h
+
+open BB.Tools in
+example : (linLoop C09V.exBase (.int 1) "ramp" (.str "stop") [1, 2] 0 (({} : Sequence).setSR (.num 10))).toOption.isSome = true := by
+  decide +kernel
+
+open BB.Tools in
+/-- **`repeatLoop`: block `i` of the result holds `copyEntry` of the input's entries with the
+    changes of step `i` applied** (`G5.stepEntry`), at keys shifted by `len(acc) + i·len(seq)`;
+    the settings are kept -/
+theorem repeatLoop_blocks (seq : Sequence) (pv : List (Int × Variation)) (steps : List Nat) (acc r : Sequence)
+    (h : repeatLoop seq pv steps acc = .ok r) (hsp : acc.awgspecs = seq.awgspecs) :
+    r.data.length = acc.data.length + steps.length * seq.data.length ∧ r.awgspecs = acc.awgspecs ∧
+    ∀ i (hi : i < steps.length) (p : Int) (en : Entry), Dict.get? seq.copy.data p = some en →
+      Dict.get? r.data (p + ((acc.data.length + i * seq.data.length : Nat) : Int)) =
+        some (Sequence.copyEntry (G5.stepEntry steps[i] pv p en)) := C09V.repeatLoop_blocks seq pv steps acc r h hsp
+
+open BB.Tools in
+/-- the same for the public tool `repeatAndVarySequence`, with its guards -/
+theorem repeatAndVary_blocks (seq : Sequence) (lens : List Nat) (poss : List Int) (vars : List Variation)
+    (r : Sequence) (h : repeatAndVarySequence seq lens poss vars = .ok r) :
+    ∃ n, sweepSteps lens vars = .ok n ∧ seq.checkConsistency = .ok true ∧
+      r.data.length = n * seq.data.length ∧ r.awgspecs = seq.awgspecs ∧
+      ∀ i (_ : i < n) (p : Int) (en : Entry), Dict.get? seq.copy.data p = some en →
+        Dict.get? r.data (p + ((i * seq.data.length : Nat) : Int)) =
+          some (Sequence.copyEntry (G5.stepEntry i (poss.zip vars) p en)) :=
+  C09V.repeatAndVary_blocks seq lens poss vars r h
 
 end BB.C09
